@@ -1,18 +1,701 @@
-//! C15 — not built yet (stub).
+//! C15 — sheet / workbook / revisions protection passwords are stored as an ECMA-376 salted, spun hash that
+//! verifies for the same password and for no other; fresh salt per call; no clear password and no legacy hash
+//! attribute in the model or in the saved file; all of it survives save and reload.
+use crate::c14::util::*;
+use crate::c14::zip_parts;
 use crate::common::*;
+use crate::e1::*;
 use crate::pool::*;
-use serde_json::Value;
+use base64::{engine::general_purpose::STANDARD, Engine as _};
+use quick_xml::events::Event;
+use quick_xml::Reader;
+use serde_json::{json, Value};
+use std::collections::HashMap;
+use umya_spreadsheet::Spreadsheet;
 
 pub fn entry() -> crate::Entry {
     crate::Entry { id: "C15", run, space, replay }
 }
-pub fn space(_tier: Tier, _id: &str) -> Option<Box<dyn Space>> {
-    None
+
+const PROP: &str = "C15";
+/// a legacy 16-bit hash as an older producer would have stored it
+const LEGACY: &str = "CC1A";
+
+#[derive(Clone, Copy, PartialEq, Eq, Debug)]
+enum Kind {
+    Sheet,
+    Workbook,
+    Revisions,
 }
-fn replay(_tier: Tier, _case: &Value) -> Vec<Violation> {
-    vec![]
+impl Kind {
+    fn name(&self) -> &'static str {
+        match self {
+            Kind::Sheet => "sheet",
+            Kind::Workbook => "workbook",
+            Kind::Revisions => "revisions",
+        }
+    }
+    fn part(&self) -> &'static str {
+        match self {
+            Kind::Sheet => "xl/worksheets/sheet1.xml",
+            _ => "xl/workbook.xml",
+        }
+    }
+    fn element(&self) -> &'static str {
+        match self {
+            Kind::Sheet => "sheetProtection",
+            _ => "workbookProtection",
+        }
+    }
+    /// attribute names: algorithm, salt, spin, hash, legacy
+    fn attrs(&self) -> [&'static str; 5] {
+        match self {
+            Kind::Sheet => ["algorithmName", "saltValue", "spinCount", "hashValue", "password"],
+            Kind::Workbook => ["workbookAlgorithmName", "workbookSaltValue", "workbookSpinCount", "workbookHashValue", "workbookPassword"],
+            Kind::Revisions => ["revisionsAlgorithmName", "revisionsSaltValue", "revisionsSpinCount", "revisionsHashValue", "revisionsPassword"],
+        }
+    }
 }
-fn run(_ctx: &Ctx) -> i32 {
-    eprintln!("MACHINERY: C15 is not built yet");
-    2
+
+#[derive(Clone, Debug, PartialEq, Eq)]
+struct Obs {
+    alg: String,
+    salt: String,
+    spin: u32,
+    hash: String,
+    raw: String,
+}
+
+fn observe(book: &Spreadsheet, kind: Kind) -> Option<Obs> {
+    match kind {
+        Kind::Sheet => book.get_sheet(&0)?.get_sheet_protection().map(|p| Obs {
+            alg: p.get_algorithm_name().to_string(),
+            salt: p.get_salt_value().to_string(),
+            spin: *p.get_spin_count(),
+            hash: p.get_hash_value().to_string(),
+            raw: p.get_password_raw().to_string(),
+        }),
+        Kind::Workbook => book.get_workbook_protection().map(|p| Obs {
+            alg: p.get_workbook_algorithm_name().to_string(),
+            salt: p.get_workbook_salt_value().to_string(),
+            spin: *p.get_workbook_spin_count(),
+            hash: p.get_workbook_hash_value().to_string(),
+            raw: p.get_workbook_password_raw().to_string(),
+        }),
+        Kind::Revisions => book.get_workbook_protection().map(|p| Obs {
+            alg: p.get_revisions_algorithm_name().to_string(),
+            salt: p.get_revisions_salt_value().to_string(),
+            spin: *p.get_revisions_spin_count(),
+            hash: p.get_revisions_hash_value().to_string(),
+            raw: p.get_revisions_password_raw().to_string(),
+        }),
+    }
+}
+
+fn preset_legacy(book: &mut Spreadsheet, kind: Kind) {
+    match kind {
+        Kind::Sheet => {
+            book.get_sheet_mut(&0).expect("sheet 0").get_sheet_protection_mut().set_password_raw(LEGACY);
+        }
+        Kind::Workbook => {
+            book.get_workbook_protection_mut().set_workbook_password_raw(LEGACY);
+        }
+        Kind::Revisions => {
+            book.get_workbook_protection_mut().set_revisions_password_raw(LEGACY);
+        }
+    }
+}
+
+fn set_password(book: &mut Spreadsheet, kind: Kind, pw: &str) {
+    match kind {
+        Kind::Sheet => {
+            book.get_sheet_mut(&0).expect("sheet 0").get_sheet_protection_mut().set_password(pw);
+        }
+        Kind::Workbook => {
+            book.get_workbook_protection_mut().set_workbook_password(pw);
+        }
+        Kind::Revisions => {
+            book.get_workbook_protection_mut().set_revisions_password(pw);
+        }
+    }
+}
+
+#[derive(Clone, Copy, PartialEq, Eq, Debug)]
+enum Host {
+    NewFile,
+    Corpus(&'static str),
+}
+
+#[derive(Clone, Debug)]
+struct Case {
+    /// one assignment, or three (one per kind, different passwords)
+    assign: Vec<(Kind, Pw)>,
+    legacy_preset: bool,
+    light: bool,
+    host: Host,
+}
+
+impl Case {
+    fn tags(&self) -> Vec<String> {
+        let mut t: Vec<String> = vec![];
+        if self.assign.len() > 1 {
+            t.push("kind-all-three".into());
+        } else {
+            match self.assign[0].0 {
+                Kind::Sheet => {}
+                Kind::Workbook => t.push("kind-workbook".into()),
+                Kind::Revisions => t.push("kind-revisions".into()),
+            }
+        }
+        for (_, p) in &self.assign {
+            if let Some(x) = p.tag {
+                if !t.iter().any(|y| y == x) {
+                    t.push(x.into());
+                }
+            }
+        }
+        if self.legacy_preset {
+            t.push("legacy-preset".into());
+        }
+        if self.light {
+            t.push("writer-light".into());
+        }
+        if let Host::Corpus(_) = self.host {
+            t.push("host-corpus".into());
+        }
+        if t.is_empty() {
+            t.push("baseline".into());
+        }
+        t
+    }
+    fn json(&self) -> Value {
+        json!({
+            "set": self.assign.iter().map(|(k, p)| json!({"kind": k.name(), "password": p.text, "password_utf16_units": p.text.encode_utf16().count()})).collect::<Vec<_>>(),
+            "legacy_raw_hash_preset": self.legacy_preset,
+            "writer": if self.light { "write_writer_light" } else { "write_writer" },
+            "host": match self.host { Host::NewFile => "new_file()".to_string(), Host::Corpus(f) => format!("tests/test_files/{}", f) },
+        })
+    }
+}
+
+fn passwords(tier: Tier) -> Vec<Pw> {
+    let mut v = base_passwords();
+    v.push(Pw { text: "0123456789".repeat(10), tag: Some("pw-100chars") });
+    if tier == Tier::Thorough {
+        v.extend(extra_passwords().into_iter().filter(|p| p.tag != Some("pw-100chars")));
+    }
+    v
+}
+
+const KINDS: [Kind; 3] = [Kind::Sheet, Kind::Workbook, Kind::Revisions];
+const CORPUS_HOSTS: [&str; 2] = ["aaa.xlsx", "book_lock.xlsx"];
+
+fn cases(tier: Tier) -> Vec<Case> {
+    let mut v = vec![];
+    let pws = passwords(tier);
+    for light in [false, true] {
+        for legacy_preset in [false, true] {
+            for pw in &pws {
+                for k in KINDS {
+                    v.push(Case { assign: vec![(k, pw.clone())], legacy_preset, light, host: Host::NewFile });
+                }
+            }
+        }
+    }
+    // all three kinds on one workbook, three different passwords (every rotation of each triple)
+    let base = base_passwords();
+    let by = |s: &str| base.iter().find(|p| p.text == s).cloned().unwrap();
+    let mut triples = vec![[by("password"), by("密码"), by("🔑🔑")]];
+    if tier == Tier::Thorough {
+        triples.push([by(""), by("a"), by("pässwörd")]);
+    }
+    for t in &triples {
+        for rot in 0..3 {
+            for light in [false, true] {
+                if tier == Tier::Quick && (rot > 0 && light) {
+                    continue;
+                }
+                v.push(Case { assign: (0..3).map(|j| (KINDS[j], t[(j + rot) % 3].clone())).collect(), legacy_preset: rot == 1, light, host: Host::NewFile });
+            }
+        }
+    }
+    // real workbooks as hosts
+    let host_pws: Vec<Pw> = if tier == Tier::Thorough { base_passwords() } else { vec![by("password"), by("🔑🔑")] };
+    for h in CORPUS_HOSTS {
+        for pw in &host_pws {
+            for k in KINDS {
+                v.push(Case { assign: vec![(k, pw.clone())], legacy_preset: false, light: false, host: Host::Corpus(h) });
+            }
+        }
+    }
+    v
+}
+
+fn guarded<T, F: FnOnce() -> T>(f: F) -> Result<T, String> {
+    std::panic::catch_unwind(std::panic::AssertUnwindSafe(f)).map_err(|e| panic_msg(&e))
+}
+
+fn host_book(h: Host) -> Result<Spreadsheet, String> {
+    match h {
+        Host::NewFile => Ok(umya_spreadsheet::new_file()),
+        Host::Corpus(f) => {
+            let p = format!("{}/tests/test_files/{}", repo_root(), f);
+            let bytes = std::fs::read(&p).map_err(|e| format!("{}: {}", p, e))?;
+            crate::dump::load_bytes(&bytes, true)
+        }
+    }
+}
+
+/// attributes of the first element with the given local name
+fn element_attrs(xml: &[u8], local: &str) -> Result<Option<HashMap<String, String>>, String> {
+    let mut r = Reader::from_reader(xml);
+    let mut buf = Vec::new();
+    loop {
+        match r.read_event_into(&mut buf) {
+            Ok(Event::Start(ref e)) | Ok(Event::Empty(ref e)) => {
+                let q = String::from_utf8_lossy(e.name().as_ref()).to_string();
+                let l = q.rsplit(':').next().unwrap_or("").to_string();
+                if l == local {
+                    let mut m = HashMap::new();
+                    for a in e.attributes() {
+                        let a = a.map_err(|e| e.to_string())?;
+                        m.insert(String::from_utf8_lossy(a.key.as_ref()).to_string(), a.unescape_value().map_err(|e| e.to_string())?.to_string());
+                    }
+                    return Ok(Some(m));
+                }
+            }
+            Ok(Event::Eof) => return Ok(None),
+            Err(e) => return Err(e.to_string()),
+            _ => {}
+        }
+        buf.clear();
+    }
+}
+
+fn xml_escape(s: &str) -> String {
+    s.replace('&', "&amp;").replace('<', "&lt;").replace('>', "&gt;").replace('"', "&quot;").replace('\'', "&apos;")
+}
+
+enum Verdict {
+    Verifies,
+    Fails(&'static str),
+    Malformed(&'static str, String),
+}
+
+/// ECMA-376 verification of `pw` against a stored (algorithm, salt, spin, hash).  `diagnose` = on mismatch try the
+/// known wrong constructions to name the symptom.
+fn verify(o: &Obs, pw: &str, diagnose: bool) -> Verdict {
+    let alg = match HashAlg::from_ooxml(&o.alg) {
+        Some(a) => a,
+        None => return Verdict::Malformed("algorithm-name-not-sha2", format!("algorithmName {:?} (this oracle implements SHA-256/384/512; the library is documented to use SHA-512)", o.alg)),
+    };
+    let salt = match STANDARD.decode(&o.salt) {
+        Ok(s) => s,
+        Err(_) => return Verdict::Malformed("salt-not-base64", format!("saltValue {:?}", o.salt)),
+    };
+    if salt.is_empty() {
+        return Verdict::Malformed("salt-empty", "saltValue is empty".into());
+    }
+    let hash = match STANDARD.decode(&o.hash) {
+        Ok(s) => s,
+        Err(_) => return Verdict::Malformed("hash-not-base64", format!("hashValue {:?}", o.hash)),
+    };
+    if hash.len() != alg.len() {
+        return Verdict::Malformed("hash-length", format!("hashValue has {} bytes, {} yields {}", hash.len(), o.alg, alg.len()));
+    }
+    if o.spin > 10_000_000 {
+        return Verdict::Malformed("spin-count-out-of-range", format!("spinCount {}", o.spin));
+    }
+    if spin_hash_first(alg, &salt, pw, o.spin) == hash {
+        return Verdict::Verifies;
+    }
+    if !diagnose {
+        return Verdict::Fails("hash-mismatch");
+    }
+    if spin_counter_first(alg, &salt, pw, o.spin) == hash {
+        return Verdict::Fails("iteration-order-counter-first");
+    }
+    if o.spin > 0 && spin_hash_first(alg, &salt, pw, o.spin - 1) == hash || spin_hash_first(alg, &salt, pw, o.spin + 1) == hash {
+        return Verdict::Fails("iteration-count-off-by-one");
+    }
+    // counter starting at 1
+    {
+        let mut h = alg.hash(&[&salt, &utf16le(pw)]);
+        for i in 1..=o.spin {
+            h = alg.hash(&[&h, &i.to_le_bytes()]);
+        }
+        if h == hash {
+            return Verdict::Fails("iteration-counter-starts-at-1");
+        }
+    }
+    // password bytes as UTF-8
+    {
+        let mut h = alg.hash(&[&salt, pw.as_bytes()]);
+        for i in 0..o.spin {
+            h = alg.hash(&[&h, &i.to_le_bytes()]);
+        }
+        if h == hash {
+            return Verdict::Fails("password-hashed-as-utf8");
+        }
+    }
+    // password || salt
+    {
+        let mut h = alg.hash(&[&utf16le(pw), &salt]);
+        for i in 0..o.spin {
+            h = alg.hash(&[&h, &i.to_le_bytes()]);
+        }
+        if h == hash {
+            return Verdict::Fails("salt-after-password");
+        }
+    }
+    Verdict::Fails("hash-mismatch")
+}
+
+struct Protect {
+    tier: Tier,
+    cases: Vec<Case>,
+}
+
+impl Space for Protect {
+    fn len(&self) -> u64 {
+        self.cases.len() as u64
+    }
+    fn describe(&self, i: u64) -> Value {
+        self.cases[i as usize].json()
+    }
+    fn tags(&self, i: u64) -> Vec<String> {
+        self.cases[i as usize].tags()
+    }
+    fn run(&self, i: u64, sink: &mut Sink) {
+        let c = self.cases[i as usize].clone();
+        let tags_owned = c.tags();
+        let tags: Vec<&str> = tags_owned.iter().map(|s| s.as_str()).collect();
+        let case = c.json();
+        clear_record(PROP, self.tier, i);
+        let push = |sink: &mut Sink, clause: &str, symptom: &str, detail: String| {
+            sink.violations.push(Violation::new(clause, symptom, &tags, case.clone(), detail));
+        };
+        let mut book = match host_book(c.host) {
+            Ok(b) => b,
+            Err(e) => {
+                // loading a corpus file is not this property's subject
+                sink.count("host-unloadable", 1);
+                push(sink, "setup", "host-unloadable", e);
+                return;
+            }
+        };
+        // baseline package (no password set) for the clear-text scan
+        let baseline_parts: Vec<(String, Vec<u8>)> = crate::dump::save_bytes(&book, c.light).ok().and_then(|b| zip_parts(&b).map(|mut p| {
+            p.push(("<raw zip bytes>".into(), b));
+            p
+        })).unwrap_or_default();
+        // rebuild the host: the save above must not influence the subject (shared-string table state)
+        book = match host_book(c.host) {
+            Ok(b) => b,
+            Err(e) => {
+                push(sink, "setup", "host-unloadable", e);
+                return;
+            }
+        };
+        if c.legacy_preset {
+            for (k, _) in &c.assign {
+                preset_legacy(&mut book, *k);
+            }
+        }
+        // the calls
+        for (k, p) in &c.assign {
+            sink.beat.note(&format!("C15 case {}: set {} password", i, k.name()));
+            let (kk, pp) = (*k, p.text.clone());
+            let b = &mut book;
+            if let Err(m) = guarded(move || set_password(b, kk, &pp)) {
+                push(sink, "call", &format!("panic:{}", panic_class(&m)), format!("setting the {} password panicked: {}", k.name(), m));
+                return;
+            }
+        }
+        // (1) model right after the call
+        let mut m1: Vec<Obs> = vec![];
+        let mut items = vec![];
+        for (k, p) in &c.assign {
+            let o = match observe(&book, *k) {
+                Some(o) => o,
+                None => {
+                    push(sink, "model-verifies", "protection-object-missing", format!("no {} protection object after the call", k.name()));
+                    return;
+                }
+            };
+            sink.obs(&format!("{}|{}|{}|{}|{}", k.name(), p.text, o.alg, o.spin, o.raw));
+            self.check_obs(&o, *k, p, &c, "model", sink, &push);
+            if let Ok(s) = STANDARD.decode(&o.salt) {
+                items.push(("salt".to_string(), format!("{}-salt", k.name()), 0u32, hex(&s)));
+            }
+            m1.push(o);
+        }
+        // cross-verification inside a multi-kind case: kind j's password must not verify kind k's hash
+        if c.assign.len() > 1 {
+            for (a, (ka, _)) in c.assign.iter().enumerate() {
+                for (b, (_, pb)) in c.assign.iter().enumerate() {
+                    if a != b {
+                        sink.evaluations += 1;
+                        if let Verdict::Verifies = verify(&m1[a], &pb.text, false) {
+                            push(sink, "wrong-password", "other-kinds-password-accepted", format!("the {} verifier accepts the password set for {}", ka.name(), c.assign[b].0.name()));
+                        }
+                    }
+                }
+            }
+            sink.evaluations += 1;
+            for a in 0..m1.len() {
+                for b in a + 1..m1.len() {
+                    if m1[a].salt == m1[b].salt {
+                        push(sink, "salt-fresh", "same-salt-for-two-kinds", format!("{} and {} share the salt {}", c.assign[a].0.name(), c.assign[b].0.name(), m1[a].salt));
+                    }
+                }
+            }
+        }
+        // (2) a second call with the same password (on a clone, so that the file below still belongs to m1)
+        {
+            let mut b2 = book.clone();
+            for (idx, (k, p)) in c.assign.iter().enumerate() {
+                sink.beat.note(&format!("C15 case {}: second call {}", i, k.name()));
+                let (kk, pp) = (*k, p.text.clone());
+                let b = &mut b2;
+                if let Err(m) = guarded(move || set_password(b, kk, &pp)) {
+                    push(sink, "call", &format!("panic:{}", panic_class(&m)), format!("second call for {} panicked: {}", k.name(), m));
+                    continue;
+                }
+                sink.evaluations += 1;
+                match observe(&b2, *k) {
+                    None => push(sink, "model-verifies", "protection-object-missing", format!("no {} protection object after the second call", k.name())),
+                    Some(o2) => {
+                        if o2.salt == m1[idx].salt {
+                            push(sink, "salt-fresh", "salt-repeated-on-second-call", format!("{}: two calls stored the same salt {}", k.name(), o2.salt));
+                        }
+                        sink.evaluations += 1;
+                        match verify(&o2, &p.text, true) {
+                            Verdict::Verifies => {}
+                            Verdict::Fails(s) => push(sink, "model-verifies", s, format!("{} after the second call: recomputed hash != stored hash", k.name())),
+                            Verdict::Malformed(s, d) => push(sink, "model-verifies", s, format!("{} after the second call: {}", k.name(), d)),
+                        }
+                        if let Ok(s) = STANDARD.decode(&o2.salt) {
+                            items.push(("salt".to_string(), format!("{}-salt", k.name()), 1u32, hex(&s)));
+                        }
+                    }
+                }
+            }
+        }
+        write_record(PROP, self.tier, i, &items);
+        // (3) save + reload
+        sink.beat.note(&format!("C15 case {}: save + reload", i));
+        let (bytes, book2) = match crate::dump::roundtrip(&book, c.light) {
+            Ok(x) => x,
+            Err(e) => {
+                push(sink, "reload-model", "save-or-load-failed", e);
+                return;
+            }
+        };
+        let parts = match zip_parts(&bytes) {
+            Some(p) => p,
+            None => {
+                push(sink, "xml", "package-not-a-zip", "saved bytes are not a readable zip".into());
+                return;
+            }
+        };
+        for (idx, (k, p)) in c.assign.iter().enumerate() {
+            sink.evaluations += 1;
+            match observe(&book2, *k) {
+                None => push(sink, "reload-model", "protection-lost", format!("{} protection absent after save + reload", k.name())),
+                Some(o) => {
+                    let w = &m1[idx];
+                    for (f, a, b) in [("algorithm", &o.alg, &w.alg), ("salt", &o.salt, &w.salt), ("hash", &o.hash, &w.hash), ("password_raw", &o.raw, &w.raw)] {
+                        if a != b {
+                            push(sink, "reload-model", &format!("changed:{}", f), format!("{} {}: {:?} before, {:?} after save + reload", k.name(), f, b, a));
+                        }
+                    }
+                    if o.spin != w.spin {
+                        push(sink, "reload-model", "changed:spin", format!("{} spinCount {} before, {} after save + reload", k.name(), w.spin, o.spin));
+                    }
+                    // the reloaded model is checked in its own right only if it differs (otherwise it is m1, already verified)
+                    if &o != w {
+                        self.check_obs(&o, *k, p, &c, "reloaded model", sink, &push);
+                    }
+                }
+            }
+            // (4) raw XML of the saved part
+            sink.evaluations += 1;
+            let names = k.attrs();
+            match parts.iter().find(|(n, _)| n == k.part()) {
+                None => push(sink, "xml", "part-missing", format!("{} not in the package", k.part())),
+                Some((_, xml)) => match element_attrs(xml, k.element()) {
+                    Err(e) => push(sink, "xml", "part-unparseable", format!("{}: {}", k.part(), e)),
+                    Ok(None) => push(sink, "xml", "element-missing", format!("no <{}> in {}", k.element(), k.part())),
+                    Ok(Some(m)) => {
+                        let w = &m1[idx];
+                        let spin = w.spin.to_string();
+                        for (f, name, want) in [("algorithm", names[0], &w.alg), ("salt", names[1], &w.salt), ("spin", names[2], &spin), ("hash", names[3], &w.hash)] {
+                            match m.get(name) {
+                                None => push(sink, "xml", &format!("attribute-missing:{}", f), format!("<{}> has no {}", k.element(), name)),
+                                Some(got) if got != want => push(sink, "xml", &format!("attribute-differs:{}", f), format!("<{} {}={:?}> but the model has {:?}", k.element(), name, got, want)),
+                                _ => {}
+                            }
+                        }
+                        if let Some(v) = m.get(names[4]) {
+                            let sym = if *v == p.text && !v.is_empty() { "legacy-attribute-holds-clear-password" } else if v == LEGACY && c.legacy_preset { "legacy-attribute-kept" } else { "legacy-attribute-written" };
+                            push(sink, "no-clear-text-file", sym, format!("<{} {}={:?}> in {}", k.element(), names[4], v, k.part()));
+                        }
+                    }
+                },
+            }
+            // (5) clear text anywhere in the package
+            if p.text.chars().count() >= 2 {
+                let mut needles: Vec<(&str, Vec<u8>)> = vec![("utf8", p.text.as_bytes().to_vec()), ("utf16le", utf16le(&p.text))];
+                let esc = xml_escape(&p.text);
+                if esc != p.text {
+                    needles.push(("utf8-xml-escaped", esc.into_bytes()));
+                }
+                let mut all: Vec<(String, &[u8])> = parts.iter().map(|(n, d)| (n.clone(), &d[..])).collect();
+                all.push(("<raw zip bytes>".into(), &bytes[..]));
+                for (enc, nd) in &needles {
+                    sink.evaluations += 1;
+                    for (name, data) in &all {
+                        if contains_sub(data, nd) {
+                            let in_baseline = baseline_parts.iter().any(|(n, d)| n == name && contains_sub(d, nd));
+                            if in_baseline {
+                                sink.count("clear-text-scan-skipped-needle-in-unprotected-package", 1);
+                            } else {
+                                push(sink, "no-clear-text-file", &format!("clear-password-in-package:{}", enc), format!("the {} password occurs ({}) in {}", k.name(), enc, name));
+                            }
+                        }
+                    }
+                }
+            } else {
+                sink.count("clear-text-scan-skipped-password-shorter-than-2", 1);
+            }
+        }
+    }
+}
+
+impl Protect {
+    /// clauses on one stored verifier: verifies for the password, not for wrong ones, no raw/clear password in the model
+    fn check_obs(&self, o: &Obs, k: Kind, p: &Pw, c: &Case, stage: &str, sink: &mut Sink, push: &dyn Fn(&mut Sink, &str, &str, String)) {
+        sink.evaluations += 1;
+        sink.beat.note(&format!("C15 oracle: verify {} ({})", k.name(), stage));
+        match verify(o, &p.text, true) {
+            Verdict::Verifies => {}
+            Verdict::Fails(s) => push(sink, "model-verifies", s, format!("{} {}: ECMA-376 hash of the password ({} UTF-16 units) with the stored salt/spinCount {} != stored hash {}", k.name(), stage, p.text.encode_utf16().count(), o.spin, o.hash)),
+            Verdict::Malformed(s, d) => {
+                push(sink, "model-verifies", s, format!("{} {}: {}", k.name(), stage, d));
+                return;
+            }
+        }
+        for w in wrong_passwords(&p.text) {
+            sink.evaluations += 1;
+            sink.beat.note("C15 oracle: wrong password");
+            if let Verdict::Verifies = verify(o, &w, false) {
+                push(sink, "wrong-password", "wrong-password-accepted", format!("{} {}: the stored hash verifies for {:?} although {:?} was set", k.name(), stage, w, p.text));
+            }
+        }
+        sink.evaluations += 1;
+        if !o.raw.is_empty() {
+            let sym = if o.raw == p.text { "raw-password-is-clear-text" } else if o.raw == LEGACY && c.legacy_preset { "legacy-raw-kept" } else { "raw-password-nonempty" };
+            push(sink, "no-clear-text-model", sym, format!("{} {}: get_password_raw() = {:?}", k.name(), stage, o.raw));
+        }
+        if p.text.chars().count() >= 2 && (o.salt.contains(&p.text) || o.hash.contains(&p.text) || o.alg.contains(&p.text)) {
+            push(sink, "no-clear-text-model", "clear-password-in-model-field", format!("{} {}: a stored field contains the password", k.name(), stage));
+        }
+    }
+}
+
+// -------------------------------------------------------------------------------------------------
+struct Fresh {
+    tier: Tier,
+    n: u64,
+}
+impl Space for Fresh {
+    fn len(&self) -> u64 {
+        1
+    }
+    fn describe(&self, _i: u64) -> Value {
+        json!({"kind": "salt-freshness-across-run", "records": self.n, "note": "reads the salts recorded by the cases of space `protect` in the same run (replay re-reads what is on disk)"})
+    }
+    fn tags(&self, _i: u64) -> Vec<String> {
+        vec!["freshness".into()]
+    }
+    fn run(&self, _i: u64, sink: &mut Sink) {
+        let f = check_freshness(PROP, self.tier, self.n);
+        sink.count("freshness-records-read", f.records_read);
+        sink.count("freshness-records-missing", f.records_missing);
+        sink.count("freshness-values-compared", f.values);
+        sink.evaluations += f.values;
+        for h in &f.all_hex {
+            sink.obs(h);
+        }
+        for (_pool, fa, wa, fb, wb, hx) in f.repeats {
+            sink.violations.push(Violation::new("salt-fresh", "salt-repeated-across-run", &["freshness"], self.describe(0), format!("{} of {} equals {} of {}: {}", fa, wa, fb, wb, hx)));
+        }
+    }
+}
+
+pub fn space(tier: Tier, id: &str) -> Option<Box<dyn Space>> {
+    match id {
+        "protect" => Some(Box::new(Protect { tier, cases: cases(tier) })),
+        "freshness" => Some(Box::new(Fresh { tier, n: cases(tier).len() as u64 })),
+        _ => None,
+    }
+}
+
+fn replay(tier: Tier, case: &Value) -> Vec<Violation> {
+    replay_e1(space(tier, case["_space"].as_str().unwrap_or("")), case)
+}
+
+/// The oracle must accept a verifier produced by Excel itself: tests/test_files/book_lock.xlsx carries an
+/// Excel-written workbookProtection whose password is "password" (also recomputed with Python hashlib).
+fn self_test() -> Result<(), String> {
+    let b = host_book(Host::Corpus("book_lock.xlsx"))?;
+    let o = observe(&b, Kind::Workbook).ok_or("book_lock.xlsx has no workbook protection")?;
+    match verify(&o, "password", false) {
+        Verdict::Verifies => {}
+        _ => return Err("the Excel-written verifier of book_lock.xlsx does not verify for \"password\"".into()),
+    }
+    match verify(&o, "passwordx", false) {
+        Verdict::Fails(_) => Ok(()),
+        _ => Err("the Excel-written verifier of book_lock.xlsx verifies for a wrong password".into()),
+    }
+}
+
+fn run(ctx: &Ctx) -> i32 {
+    if let Err(e) = self_test() {
+        eprintln!("MACHINERY: C15 oracle self-test failed: {}", e);
+        return 2;
+    }
+    let ids = ["protect", "freshness"];
+    let spaces = ids.iter().map(|id| (*id, space(ctx.tier, id).unwrap())).collect();
+    let cs = cases(ctx.tier);
+    let pws = passwords(ctx.tier);
+    run_e1(
+        ctx,
+        E1Spec {
+            spaces,
+            cfg: PoolCfg { chunk: 1, case_timeout: std::time::Duration::from_secs(120), ..Default::default() },
+            level: "exploration",
+            rule: "full product password alphabet x {sheet, workbook, revisions} x {no preset, legacy raw hash preset} x {write_writer, write_writer_light} on new_file(); plus three kinds at once with three different passwords (rotations), plus corpus workbooks as hosts. Per assignment: model right after the call (ECMA-376 recomputation H0=H(salt||UTF16LE(pw)), Hi=H(Hi-1||LE32(i)), i=0..spinCount-1 with the STORED algorithm/salt/spinCount reproduces the stored hash; password+'x', '', password minus last char do not; get_password_raw() empty), a second call on a clone (different salt, still verifies), save + reload (all five fields unchanged), raw XML of the saved part (attributes equal the model; no password / workbookPassword / revisionsPassword attribute), and a scan of every inflated zip part and of the raw zip bytes for the password as UTF-8, XML-escaped UTF-8 and UTF-16LE (skipped for passwords shorter than 2 chars, and for a needle that already occurs in the same part of the unprotected package). Space `freshness`: all salts of the run pairwise distinct. distinct_nontrivial = distinct (kind, password, algorithm, spinCount, raw) model observations plus distinct salts".into(),
+            alphabets: json!({
+                "passwords": pws.iter().map(|p| if p.text.chars().count() > 40 { format!("{} chars starting {:?}", p.text.chars().count(), p.text.chars().take(10).collect::<String>()) } else { p.text.clone() }).collect::<Vec<_>>(),
+                "kinds": ["sheet", "workbook", "revisions", "all three with different passwords"],
+                "preset": ["none", "legacy raw hash CC1A"],
+                "writers": ["write_writer", "write_writer_light"],
+                "hosts": ["new_file()", "tests/test_files/aaa.xlsx", "tests/test_files/book_lock.xlsx"],
+                "observation_points": ["model after the call", "model after a second call", "model after save + reload", "attributes of the saved XML element", "all bytes of the package"],
+            }),
+            bounds: json!({"cases": cs.len(), "max_password_chars": 255, "spin_count": "as stored (100000)"}),
+            exhaustive: true,
+            caps_hit: vec![],
+            assumptions: vec![
+                "oracle self-test before every run: the Excel-written workbookProtection verifier in tests/test_files/book_lock.xlsx verifies for \"password\" and not for \"passwordx\" (also recomputed with Python hashlib)".into(),
+                "trusted base: RustCrypto sha2 and base64 as primitives, zip crate for inflating parts, quick-xml for tokenising".into(),
+                "the oracle verifies with the stored algorithm name among SHA-256/384/512 (the statement fixes the ECMA-376 scheme, not the digest); any other name is reported".into(),
+                "clear-text scan is not meaningful for the empty and 1-character passwords and is skipped for them (counted)".into(),
+                "freshness: only distinctness of salts over the run is decided; a predictable generator would pass".into(),
+            ],
+            min_distinct: cs.len() as u64,
+        },
+    )
 }
